@@ -1,16 +1,16 @@
-\* manual mode with an interval() generator (period 2) driven through a stop token, next to ordinary sleeps
+\* manual mode with an interval() generator (period 4 = two ticks) driven through a stop token, next to ordinary sleeps
 SPECIFICATION Spec
 CONSTANTS
   Mode = "manual"
-  TPs = {1, 3}
-  Nows = {1, 2, 3}
+  TPs = {2, 6}
+  Nows = {2, 3, 4, 6}
   Ids = {0, 1}
   CancelIds = {1}
   MaxSleeps = 2
   MaxHeap = 3
   MaxOps = 0
   AllowRemove = FALSE
-  Interval = 2
+  Interval = 4
   NC = 1
 INVARIANTS TypeOK HeapWellFormed LiveMatchesPending NeverEarly DeadlineOrder PromptManual CancelHitsOne NotifyWhenEarliest NothingAfterDestroy IntervalConsistent
 PROPERTIES ExactlyOncePerSleep LiveFrame CancelFalseNoEffect DestroyCancelsPending
